@@ -6,6 +6,10 @@ set -u
 export GOFLAGS=-mod=mod GOPROXY=off GOSUMDB=off GOTOOLCHAIN=local
 ID=$1; N=$2; SD=/tmp/seed-$ID; P=$SD/patch$N.diff; DEMO=$SD/demo${N}_test.go
 OUT=/verif/seeded/$ID-$N; mkdir -p $OUT
+# a change kept under /verif/seeded can be re-evaluated without its original scratch directory
+if [ ! -f "$P" ] && [ -f "$OUT/patch.diff" ]; then
+  mkdir -p $SD; cp $OUT/patch.diff $P; cp $OUT/demo_test.go $DEMO; cp $OUT/agent_meta.json $SD/meta$N.json
+fi
 WT=/tmp/wt-verify-$ID-$N
 [ -f "$P" ] || { echo "no patch $P"; exit 2; }
 PKG=$(python3 -c "import json;print(json.load(open('$SD/meta$N.json')).get('package','').split(' ')[0].replace('./','').rstrip('/'))" 2>/dev/null)
